@@ -2,6 +2,7 @@
   Driver/Cmds.lean — the commands of the line protocol.
 -/
 import FqeVerif.Driver.Parse
+import FqeVerif.Spec.Rotate
 import FqeVerif.Model.Maps
 import FqeVerif.Model.Cirq
 import FqeVerif.Model.Sectors
@@ -203,6 +204,13 @@ def cmd (name : String) : P String := do
   | "admit_unitary" => do
       let a ← nat; let b ← nat; let c ← nat; let d ← nat
       return showRefusal (admitGeneratedUnitary (a != 0) (b != 0) (c != 0) (d != 0))
+  -- Spec: many-body image of a one-body matrix.  `<norb> vec <(2norb)^2 entries re im, row-major, mode indexing>`
+  | "gamma" => do
+      let norb ← nat; let v ← vec
+      let n := 2 * norb
+      let flat ← many (n * n) gq
+      let M := (List.range n).map (fun i => (List.range n).map (fun j => flat.getD (i * n + j) 0))
+      return showVec (gammaFqe norb M v)
   | _ => throw s!"unknown command {name}"
 
 def handle (line : String) : String :=
